@@ -9,6 +9,11 @@ exactly one CONNACK, creates no session and is closed; a client is admitted only
 authentication hook allows it, and with no authentication hook every connection is refused.
 Schedules (a concurrent publish reaching the new client between `Clients.Add` and the CONNACK write —
 known finding F13) are the concurrency model's subject.
+
+For every state reachable by a sequential history: `C13_connack_first_seq` (lemmas in
+`Mochi/Lemmas/BrokerConnect.lean`) — a refused CONNECT writes exactly the failure CONNACK and the close and registers
+nothing; an admitted one writes, before the CONNACK 0, only the take-over DISCONNECT 0x8E / close on ANOTHER
+connection, and no CONNACK afterwards; the first packet on the new connection is the one CONNACK of the op.
 -/
 namespace Mochi.Broker
 open Mochi.Topics
